@@ -712,3 +712,5 @@ def check(rep, tier, replay=None):
     check_u3(rep, A.index(d["fit_spline"]))
     check_u4(rep, A.index(d["reparameterize_spline"]))
     check_u5(rep, A.index(d["reparameterize_spline"]))
+    import fitm
+    fitm.check(rep, tier, d["fit_spline"])
